@@ -526,6 +526,37 @@ mod tm {
                                 }
                                 out.push('}');
                             }
+                            // sub-tables and arrays of tables come in the order of their first appearance too (a super-table that was
+                            // first implied by a longer header and only later defined by its own is left out: its place is ambiguous)
+                            fn table_order(n: &refmodel::Node, t: &toml::Table) -> Result<(), String> {
+                                let refmodel::Val::Table(es) = &n.val else { return Ok(()) };
+                                let tablish_m = |v: &refmodel::Val| matches!(v, refmodel::Val::Table(_)) || matches!(v, refmodel::Val::Array(a) if a.iter().any(|x| matches!(x.val, refmodel::Val::Table(_))));
+                                let late: Vec<&String> = es.iter().filter(|e| e.late).map(|e| &e.key).collect();
+                                let want: Vec<&String> = es.iter().filter(|e| tablish_m(&e.node.val) && !e.late).map(|e| &e.key).collect();
+                                let got: Vec<&String> = t.iter().filter(|(k, v)| (v.is_table() || matches!(v, Value::Array(a) if a.iter().any(|x| x.is_table()))) && !late.contains(k)).map(|(k, _)| k).collect();
+                                if want != got {
+                                    return Err(format!("tables / arrays of tables in the order {:?}, the source has them in the order {:?}", got, want));
+                                }
+                                for e in es {
+                                    match (&e.node.val, t.get(&e.key)) {
+                                        (refmodel::Val::Table(_), Some(Value::Table(st))) => table_order(&e.node, st)?,
+                                        (refmodel::Val::Array(ms), Some(Value::Array(a))) => {
+                                            for (m, x) in ms.iter().zip(a.iter()) {
+                                                if let Value::Table(st) = x {
+                                                    table_order(m, st)?;
+                                                }
+                                            }
+                                        }
+                                        _ => {}
+                                    }
+                                }
+                                Ok(())
+                            }
+                            if !limits.any() {
+                                if let Err(e) = table_order(&tree, &t) {
+                                    println!("VIOL toml::Table[preserve_order] does not keep the source order of keys: {:?} decodes with {}", d, e);
+                                }
+                            }
                             if !limits.any() {
                                 let (mut a, mut b) = (String::new(), String::new());
                                 model_keys(&tree, &mut a);
